@@ -99,6 +99,8 @@ dbus_bool_t       _dbus_connection_send_and_unlock             (DBusConnection  
                                                                 DBusMessage        *message,
                                                                 dbus_uint32_t      *client_serial);
 
+DBUS_PRIVATE_EXPORT
+dbus_uint32_t     _dbus_connection_get_next_client_serial      (DBusConnection     *connection);
 void              _dbus_connection_queue_synthesized_message_link (DBusConnection *connection,
 						                   DBusList *link);
 DBUS_PRIVATE_EXPORT
